@@ -64,14 +64,16 @@ def session_case(case):
         res['dump_set'] = drv.parse_dump(d.cmd('dump'))
         d.cmd('writews ' + paths['w1'])
         res['w1'] = rd(paths['w1'])
-        d.cmd('new')
+        if not case.get('same'):
+            d.cmd('new')            # a fresh InstMgr/STEPfile; otherwise the session file is loaded back into the very same objects
         res['readws1'] = drv.kv(d.cmd('readws ' + paths['w1'])[0])
         res['dump1'] = drv.parse_dump(d.cmd('dump'))
         d.cmd('writews ' + paths['w2'])
         res['w2'] = rd(paths['w2'])
         d.cmd('write ' + paths['e1'])
         res['e1'] = rd(paths['e1'])
-        d.cmd('new')
+        if not case.get('same'):
+            d.cmd('new')
         res['readws2'] = drv.kv(d.cmd('readws ' + paths['w2'])[0])
         res['dump2'] = drv.parse_dump(d.cmd('dump'))
         d.cmd('writews ' + paths['w3'])
@@ -249,7 +251,7 @@ def main():
     chk = common.Check(PID, args.tier, deadline_s=args.deadline)
     chk.rule = ('E-hist: populations = all combinations of <= %d instance templates (complete and partially filled, simple and externally mapped, with '
                 'references) x ALL 4^n assignments of the states C/I/N/D (D only for unreferenced instances) x the history read, set states, save, load, '
-                'save, exchange-write, load, save; state = (population, assignment), transition = one history on the real STEPfile; oracle = dict model '
+                'save, exchange-write, load, save - each with the loads into a fresh session and into the saving session itself; state = (population, assignment), transition = one history on the real STEPfile; oracle = dict model '
                 'of the session (exchange round trip minus deleted, states, byte-identical re-save)') % (3 if args.tier == 'quick' else 4)
     chk.assumptions = ['a partially filled instance that was marked "complete" may come back as incomplete (not judged)',
                        '"saving again reproduces the file" is read as: second save == first save with the deleted instances removed, third save == second',
@@ -257,10 +259,16 @@ def main():
     for fam in fams():
         lib = build.schema_lib(fam.express(), 'plain')
         cases = list(gen(fam, args.tier))
+        # every history also with the loads going into the SAME STEPfile/InstMgr that wrote the file (save/load cycles within one session)
+        cases = cases + [dict(c, same=True) for c in cases]
         results = p21run.run_many(lib, cases, fn=session_case, chunksize=8)
-        for c, r in zip(cases, results):
+        half = len(cases) // 2
+        fresh_keys = [set(k for k, _ in judge(c, r)) for c, r in zip(cases[:half], results[:half])]
+        for n, (c, r) in enumerate(zip(cases, results)):
             chk.count(states=1, transitions=1)
             v = judge(c, r)
+            if c.get('same'):
+                v = [(k if k in fresh_keys[n - half] else k + '/same-session', w + ('' if k in fresh_keys[n - half] else ' [only when loading into the session that saved]')) for k, w in v]
             chk.cls(''.join(s for _, s in c['states'][2:]) if len(c['states']) <= 4 else 'n=%d' % (len(c['states']) - 2))
             if not v:
                 chk.outcome('ok')
